@@ -345,8 +345,35 @@ def run_triple(case):
     if not libp.same(tot):
       return bad("parallel:polys", "ParallelFilter numpoly/denpoly are not the sum of the parts",
                  {"num": tot.num, "den": tot.den}, {"num": str(par.numpoly), "den": str(par.denpoly)}, nt)
-  # field laws on three operands (library results compared with each other)
+  # banks nested in banks of the other kind (and of the same kind): the structure must be kept
   f, g, h = specs
+  rfs = {"f": R3[0], "g": R3[1], "h": R3[2]}
+  nests = [("cascade(f, parallel(g, h))", lambda: CascadeFilter(mk(f), ParallelFilter(mk(g), mk(h))), R3[0] * (R3[1] + R3[2])),
+           ("parallel(f, cascade(g, h))", lambda: ParallelFilter(mk(f), CascadeFilter(mk(g), mk(h))), R3[0] + R3[1] * R3[2]),
+           ("cascade([parallel([f, g]), h])", lambda: CascadeFilter([ParallelFilter([mk(f), mk(g)]), mk(h)]), (R3[0] + R3[1]) * R3[2]),
+           ("parallel([cascade([f, g]), h])", lambda: ParallelFilter([CascadeFilter([mk(f), mk(g)]), mk(h)]), R3[0] * R3[1] + R3[2]),
+           ("cascade(cascade(f, g), h)", lambda: CascadeFilter(CascadeFilter(mk(f), mk(g)), mk(h)), R3[0] * R3[1] * R3[2]),
+           ("parallel(parallel(f, g), h)", lambda: ParallelFilter(ParallelFilter(mk(f), mk(g)), mk(h)), R3[0] + R3[1] + R3[2])]
+  for name, build, want in nests:
+    try:
+      bank = build()
+      got = [Sym.lift(v) for v in bank(list(x), zero=Q(0))]
+    except Exception as exc:
+      return bad("nested:exception:" + type(exc).__name__, "%s raised" % name, None, str(exc)[:200], nt)
+    try:
+      libn = RF({k: F(v) for k, v in bank.numpoly.terms()}, {k: F(v) for k, v in bank.denpoly.terms()})
+    except TypeError:
+      libn = None        # a parallel bank holding a bank has no numpoly/denpoly (its parts cannot be added): not demanded
+    if libn is not None and not libn.same(want):
+      return bad("nested:polys", "%s: numpoly/denpoly are not those of the nested structure" % name,
+                 {"num": want.num, "den": want.den}, {"num": str(bank.numpoly), "den": str(bank.denpoly)}, nt)
+    try:
+      exp = apply_rf(want, x)
+    except (ValueError, ZeroDivisionError):
+      continue
+    if not eqs(got, exp):
+      return bad("nested:signal", "%s: output is not that of the nested structure" % name, exp[:4], got[:4], nt)
+  # field laws on three operands (library results compared with each other)
   laws = [("add-assoc", lambda: (mk(f) + mk(g)) + mk(h), lambda: mk(f) + (mk(g) + mk(h))),
           ("mul-assoc", lambda: (mk(f) * mk(g)) * mk(h), lambda: mk(f) * (mk(g) * mk(h))),
           ("distributive", lambda: mk(f) * (mk(g) + mk(h)), lambda: mk(f) * mk(g) + mk(f) * mk(h)),
@@ -465,7 +492,7 @@ def eq_pool(tier):
           [["1", "2"], ["1", "1"]], [["2", "4"], ["2"]], [["0"], ["1"]]]
   out = []
   for s in specs:
-    for route in ("list", "dict", "zexpr", "float", "Fraction", "LinearFilter", "cast"):
+    for route in ("list", "dict", "zexpr", "float", "Fraction", "LinearFilter", "cast", "dict-reversed", "zexpr-reversed"):
       out.append((s, route))
   return out
 
@@ -479,6 +506,14 @@ def build_route(spec, route):
   if route == "zexpr":
     num = sum((coef(c) * z ** -k for k, c in enumerate(b)), 0 * z)
     den = sum((coef(c) * z ** -k for k, c in enumerate(a)), 0 * z)
+    return num / den
+  if route == "dict-reversed":
+    # the same terms inserted highest delay first: storage order must not matter to == / != / hash
+    return ZFilter({k: coef(c) for k, c in reversed(list(enumerate(b)))},
+                   {k: coef(c) for k, c in reversed(list(enumerate(a)))})
+  if route == "zexpr-reversed":
+    num = sum((coef(c) * z ** -k for k, c in reversed(list(enumerate(b)))), 0 * z)
+    den = sum((coef(c) * z ** -k for k, c in reversed(list(enumerate(a)))), 0 * z)
     return num / den
   if route == "float":
     return ZFilter([float(F(c)) for c in b], [float(F(c)) for c in a])
